@@ -671,19 +671,25 @@ func init() {
 		tokStep:      map[string]int{"quick": 11, "thorough": 1},
 	})
 	Register(&StreamProp{
-		id:           "C06",
-		meta:         Meta{Level: "exploration", Rule: "TODO", Floor: map[string]int{"quick": 50, "thorough": 100}, CaseBudget: 60},
+		id: "C06",
+		meta: Meta{Level: "exploration",
+			Rule:        "same typing-history stream as C01 restricted to CompletionAtPos with and without required-field prefilling (fixtures; generated schemas incl. 'wide' bodies of 90-130 attributes for populations below / at / above the limit; hooks): every candidate must carry an edit for the requested file with a well-formed range (position table) that starts at or before the cursor and reaches it (only blanks in between), plain text without tab-stop syntax, snippet tab stops consecutive and unique (final ${0} aside); a list never exceeds 100 entries; whenever a list has >= 20 entries the same query is repeated through the verif hook with the limit lifted: a list marked complete must not be shorter than the unlimited one, lists below the limit must be identical in length; a list holding hook candidates must not be marked complete. distinct non-trivial = distinct (candidate kind, prefill, text left of the cursor, AST node kind under the cursor, mutation kind) with >= 1 candidate.",
+			Assumptions: []string{"tab-stop grammar: ${N}, ${N:default}, $N", "hook candidates are recognised by the detail strings the harness' own hooks set"},
+			Floor:       map[string]int{"quick": 50, "thorough": 100}, CaseBudget: 60},
 		oracles:      []Oracle{oracleCandidates},
 		kinds:        []core.QKind{core.QCompletion, core.QCompletionPrefill},
 		chunks:       map[string]int{"quick": 8, "thorough": 16},
-		nGenQuick:    24,
+		nGenQuick:    16,
 		nGenThorough: 400,
-		prefixStep:   map[string]int{"quick": 7, "thorough": 1},
-		tokStep:      map[string]int{"quick": 9, "thorough": 2},
+		prefixStep:   map[string]int{"quick": 11, "thorough": 1},
+		tokStep:      map[string]int{"quick": 13, "thorough": 2},
 	})
 	Register(&StreamProp{
-		id:           "C12",
-		meta:         Meta{Level: "exploration", Rule: "TODO", Floor: map[string]int{"quick": 50, "thorough": 100}, CaseBudget: 60},
+		id: "C12",
+		meta: Meta{Level: "exploration",
+			Rule:        "same typing-history stream as C01 restricted to HoverAtPos at every cursor: a non-nil hover must have non-empty content, no accompanying error, a well-formed range (position table) for the requested file that contains the cursor (start <= cursor <= end). Content of dependent-body elements is cross-checked in C16 (marker descriptions). distinct non-trivial = distinct (AST node kind under the cursor, mutation kind, first word of the content) with a hover.",
+			Assumptions: []string{"a cursor exactly at the end of the hover range is accepted as contained (counted separately in the evidence)"},
+			Floor:       map[string]int{"quick": 50, "thorough": 100}, CaseBudget: 60},
 		oracles:      []Oracle{oracleHover},
 		kinds:        []core.QKind{core.QHover},
 		chunks:       map[string]int{"quick": 8, "thorough": 16},
@@ -693,8 +699,11 @@ func init() {
 		tokStep:      map[string]int{"quick": 9, "thorough": 2},
 	})
 	Register(&StreamProp{
-		id:           "C13",
-		meta:         Meta{Level: "exploration", Rule: "TODO", Floor: map[string]int{"quick": 50, "thorough": 100}, CaseBudget: 60},
+		id: "C13",
+		meta: Meta{Level: "exploration",
+			Rule:        "same typing-history stream as C01 restricted to SemanticTokensInFile on every file state (base, byte prefixes, single-token edits): tokens sorted by start, pairwise non-overlapping, non-empty, of an advertised type, each with a well-formed range of the requested file (position table). That exactly the schema-known elements are marked is cross-checked for dependent-body marker attributes in C16. distinct non-trivial = file states with >= 3 token types, keyed by (source, file, mutation).",
+			Assumptions: []string{"exactness of the token set beyond the C16 markers is not decided by this check"},
+			Floor:       map[string]int{"quick": 50, "thorough": 100}, CaseBudget: 60},
 		oracles:      []Oracle{oracleTokens},
 		kinds:        []core.QKind{core.QSemTokens},
 		chunks:       map[string]int{"quick": 8, "thorough": 16},
